@@ -56,6 +56,16 @@ MAP = [
     ('sismic/testing.py', r'.*', 'C19'),
 ]
 
+SECOND = bool(os.environ.get('MUT_SECOND'))
+CONFUSE = {'_entry_time': '_idle_time', '_idle_time': '_entry_time', 'entered_states': 'exited_states', 'exited_states': 'entered_states',
+           'source': 'target', 'target': 'source', '_internal_queue': '_external_queue', '_external_queue': '_internal_queue',
+           'preconditions': 'postconditions', 'postconditions': 'invariants', 'invariants': 'preconditions', 'on_entry': 'on_exit',
+           'on_exit': 'on_entry', 'ancestors_for': 'descendants_for', 'descendants_for': 'ancestors_for', 'children_for': 'descendants_for',
+           'parent_for': 'state_for', 'initial': 'memory', 'memory': 'initial', '_time': '_speed', '_base': '_time',
+           'transitions_from': 'transitions_to', 'transitions_to': 'transitions_from', 'sent_events': 'steps', 'pop': 'copy'}
+CONFUSE_NAMES = {'min': 'max', 'max': 'min', 'any': 'all', 'all': 'any', 'InternalEvent': 'Event', 'MetaEvent': 'InternalEvent',
+                 'ShallowHistoryState': 'DeepHistoryState', 'DeepHistoryState': 'ShallowHistoryState', 'OrthogonalState': 'CompoundState',
+                 'CompoundState': 'OrthogonalState', 'bisect_right': 'bisect_left', 'insort_right': 'insort_left'}
 CMP = {ast.Lt: ('<', '<='), ast.LtE: ('<=', '<'), ast.Gt: ('>', '>='), ast.GtE: ('>=', '>'), ast.Eq: ('==', '!='),
        ast.NotEq: ('!=', '=='), ast.In: ('in', 'not in'), ast.NotIn: ('not in', 'in'), ast.Is: ('is', 'is not'),
        ast.IsNot: ('is not', 'is')}
@@ -90,6 +100,7 @@ def mutants_of(path):
     off = offsets(src)
     fn = func_of(tree)
     out = []     # (line, function, operator description, start, end, replacement)
+    out2 = []
 
     def seg(n):
         return off(n.lineno, n.col_offset), off(n.end_lineno, n.end_col_offset)
@@ -170,9 +181,49 @@ def mutants_of(path):
             out.append((n.lineno, fn(n.lineno), 'continue -> pass', a, b, 'pass'))
         if isinstance(n, ast.keyword) and n.arg == 'reverse' and isinstance(n.value, ast.Constant):
             pass   # covered by True/False
+        if SECOND:
+            # ---- second batch of operators (order of iteration / of side effects, confusable names, dropped branches)
+            if isinstance(n, ast.For) and not isinstance(n.iter, ast.Call):
+                a, b = seg(n.iter)
+                out2.append((n.lineno, fn(n.lineno), 'for .. in xs -> in reversed(list(xs))', a, b, 'reversed(list(' + src[a:b] + '))'))
+            elif isinstance(n, ast.For) and isinstance(n.iter, ast.Call) and not (isinstance(n.iter.func, ast.Name) and n.iter.func.id in ('range', 'enumerate', 'zip', 'reversed')):
+                a, b = seg(n.iter)
+                out2.append((n.lineno, fn(n.lineno), 'for .. in f(..) -> in reversed(list(f(..)))', a, b, 'reversed(list(' + src[a:b] + '))'))
+            if isinstance(n, ast.Call) and isinstance(n.func, ast.Attribute) and n.func.attr == 'append' and len(n.args) == 1:
+                a, b = seg(n)
+                fa, fb = seg(n.func.value)
+                xa, xb = seg(n.args[0])
+                out2.append((n.lineno, fn(n.lineno), 'append(x) -> insert(0, x)', a, b, src[fa:fb] + '.insert(0, ' + src[xa:xb] + ')'))
+            if isinstance(n, ast.Call) and isinstance(n.func, ast.Name) and n.func.id in ('sorted', 'sorted_groupby') and any(k.arg == 'key' for k in n.keywords) and n.func.id == 'sorted':
+                k = next(k for k in n.keywords if k.arg == 'key')
+                # drop the key: from the end of the previous argument to the end of the key value
+                prev_end = max([off(x.end_lineno, x.end_col_offset) for x in n.args] + [off(q.value.end_lineno, q.value.end_col_offset) for q in n.keywords if q is not k and q.value.end_lineno <= k.value.lineno and off(q.value.end_lineno, q.value.end_col_offset) < off(k.value.lineno, k.value.col_offset)])
+                out2.append((n.lineno, fn(n.lineno), 'sorted(.., key=k) -> sorted(..)', prev_end, off(k.value.end_lineno, k.value.end_col_offset), ''))
+            if isinstance(n, ast.Attribute) and n.attr in CONFUSE:
+                a, b = seg(n)
+                va, vb = seg(n.value)
+                out2.append((n.lineno, fn(n.lineno), 'name %s -> %s' % (n.attr, CONFUSE[n.attr]), a, b, src[va:vb] + '.' + CONFUSE[n.attr]))
+            if isinstance(n, ast.Name) and n.id in CONFUSE_NAMES:
+                a, b = seg(n)
+                out2.append((n.lineno, fn(n.lineno), 'name %s -> %s' % (n.id, CONFUSE_NAMES[n.id]), a, b, CONFUSE_NAMES[n.id]))
+            if isinstance(n, ast.If) and n.lineno != n.end_lineno and not n.orelse and len(n.body) <= 3:
+                a = off(n.body[0].lineno, n.body[0].col_offset)
+                b = off(n.body[-1].end_lineno, n.body[-1].end_col_offset)
+                out2.append((n.lineno, fn(n.lineno), 'if body -> pass', a, b, 'pass'))
+            if isinstance(n, (ast.FunctionDef, ast.For, ast.If, ast.With, ast.While)):
+                for blk in (n.body, getattr(n, 'orelse', [])):
+                    for x, y in zip(blk, blk[1:]):
+                        if isinstance(x, (ast.Expr, ast.Assign, ast.AugAssign)) and isinstance(y, (ast.Expr, ast.Assign, ast.AugAssign)) \
+                                and id(x) not in docstrings and x.col_offset == y.col_offset:
+                            xa, xb = seg(x)
+                            ya, yb = seg(y)
+                            out2.append((x.lineno, fn(x.lineno), 'swap two statements', xa, yb, src[ya:yb] + src[xb:ya] + src[xa:xb]))
+            if isinstance(n, ast.Subscript) and isinstance(n.slice, ast.Slice) and n.slice.lower is not None and isinstance(n.slice.lower, ast.Constant) and n.slice.lower.value == 1:
+                a, b = seg(n.slice.lower)
+                out2.append((n.lineno, fn(n.lineno), 'slice [1:] -> [0:]', a, b, '0'))
     res = []
     seen = set()
-    for line, f, desc, a, b, new in out:
+    for line, f, desc, a, b, new in (out2 if SECOND else out):
         if (a, b, new) in seen:
             continue
         seen.add((a, b, new))
@@ -228,7 +279,7 @@ def gen(outdir, files):
     for f in files:
         src, ms = mutants_of(f)
         for k, m in enumerate(ms):
-            m['id'] = '%s_%04d' % (re.sub(r'\W', '_', f[len('sismic/'):-3]), k)
+            m['id'] = '%s%s_%04d' % ('b' if SECOND else '', re.sub(r'\W', '_', f[len('sismic/'):-3]), k)
             jobs.append(m)
     random.Random(1).shuffle(jobs)
     nw = int(os.environ.get('MUT_WORKERS', '6'))
